@@ -176,6 +176,10 @@ initialize frontStore : IO.Ref (Std.HashMap String FrontCase) ← IO.mkRef {}
 
 def frontFuel : Nat := 200
 
+/-- fuel of the end-to-end instance (the codec model `goDecode` evaluates the zero value of absent members eagerly:
+    exponential in the fuel on recursive schemas, so the instance is evaluated at a small fuel) -/
+def e2eFuel : Nat := 16
+
 def caseIn : Sexp → Option (String × JS × Defs)
   | .list [.atom "case", .str pkg, root, .list (.atom "defs" :: ds)] => do
     let ds' ← ds.mapM fun (x : Sexp) => match x with
@@ -256,10 +260,10 @@ def jsfdocLine (rest : String) : IO String := do
         -- instance of C01_jsonschema_end_to_end_partial on the REAL front-end IR (pass models, codec model)
         let prep ← srcPrep realId real
         let e2e :=
-          if c.frag && prep.plainS && strict && wfDeep j then
+          if c.frag && prep.plainS && wfDeep j && jsValidX fmtOracle c.defs e2eFuel c.root j then
             match prep.model with
             | some S' =>
-              (match goRoundTrip (frontFuel + soundSlack + 1) S' c.pkg (rootName c.pkg c.root) j with
+              (match goRoundTrip (e2eFuel + soundSlack + 1) S' c.pkg (rootName c.pkg c.root) j with
                | .ok j' => toString (Json.eqv j' j)
                | _ => "false")
             | none => "chain-err"
